@@ -1,11 +1,9 @@
 #!/bin/bash
 # tools/check_seeded.sh — mutation self-test: every seeded change must be caught by the quick tier of its property's check
+# (source-anchor escalation off, so that the quick generators are what is measured); 4 at a time
 cd "$(dirname "$0")/.."
 mkdir -p out
-res=out/seeded_selftest.txt; : > $res
-for d in seeded/*/; do
-  n=$(basename $d); id=${n%%-*}
-  out=$(tools/try_mutant.sh $d/patch.diff $id 2>&1 | tail -1)
-  echo "$n $out" | tee -a $res
-done
+res=out/seeded_selftest.txt
+ls seeded | xargs -P 4 -I{} bash -c 'n={}; id=${n%%-*}; echo "$n $(tools/try_mutant.sh seeded/$n/patch.diff $id 2>&1 | tail -1)"' | sort > $res
+cat $res
 echo "missed:"; grep -v "rc=1" $res
